@@ -97,7 +97,7 @@ def run(prop, info, gen_path, R, seed, extra_cov, undecided_reasons, mine):
         for sc in scs:
             r, out = kani.run_harness(d, 'cex::' + sc, timeout=900)
             rows.append({'harness': 'cex::' + sc, 'ok': r['ok'], 'failed': r['failed'], 'cbmc_checks': r['checks'], 'wall_s': r['wall_s'], 'solver_s': r['solver_s'],
-                         'bound': {'word': 'all words < 2048 (complete)', 'bits': 'all bit streams of <= 24 bits with one clear() at any position', 'events': 'all sequences of <= 3 key events with any mode schedule'}.get(sc, '')})
+                         'bound': {'word': 'all words < 2048 (complete)', 'bits': 'all bit streams of <= 24 bits with one clear() at any position', 'events': 'all sequences of <= 3 key events with any mode / layout-change schedule', 'events_mods': 'as events, modifiers only', 'events_decode': 'as events, decoded keys only'}.get(sc, '')})
             if r['failed']:
                 undecided_reasons.append('back ends disagree: Kani harness cex::%s fails although Verus discharged every obligation' % sc)
         extra_cov['kani_second_back_end_(bounded)'] = rows
